@@ -22,7 +22,8 @@
 EXTENDS Naturals, Integers, Sequences, FiniteSets, TLC
 
 NT(n) == <<"nt", n>>
-T(S) == <<"t", S>>
+T(S) == <<"t", S, 1>>              \* a terminal byte that ends its lexeme
+Tmid(S) == <<"t", S, 0>>           \* a byte inside a literal
 SeqSet(s) == {s[i] : i \in DOMAIN s}
 
 RECURSIVE Flat(_)
@@ -45,7 +46,7 @@ DAlts(name, alts, path) ==
 
 DItem(it, path) ==
     CASE it.k = "ref" -> [syms |-> <<NT(<<it.n>>)>>, prods |-> {}]
-      [] it.k = "lit" -> [syms |-> [i \in DOMAIN it.b |-> T({it.b[i]})], prods |-> {}]
+      [] it.k = "lit" -> [syms |-> [i \in DOMAIN it.b |-> IF i = Len(it.b) THEN T({it.b[i]}) ELSE Tmid({it.b[i]})], prods |-> {}]
       [] it.k = "cls" -> [syms |-> <<T(SeqSet(it.s))>>, prods |-> {}]
       (* a token-identity terminal <name> / <[ids]> : consumes ONE token whose id is in the set *)
       [] it.k = "tok" -> [syms |-> <<<<"tk", SeqSet(it.ids)>>>>, prods |-> {}]
@@ -160,6 +161,21 @@ AcceptingChart(chart, start) ==
     \E it \in chart[Len(chart)] : it[1][1] = start /\ it[3] = 0 /\ NextSym(it) = <<"end">>
 (* bytes that can come next *)
 NextBytes(chart) == UNION {NextSym(it)[2] : it \in {x \in chart[Len(chart)] : NextSym(x)[1] = "t"}}
+
+(* ---- %ignore (as the implementation documents it) --------------------- *)
+(* `%ignore /[S]+/`, S a byte set no terminal uses.  The ignorable lexeme may be scanned after a complete lexeme   *)
+(* whenever "the grammar didn't finish", i.e. some terminal may still follow; never before the first lexeme        *)
+(* (allow_initial_skip is off by default) and never inside a literal.  It leaves the item sets unchanged.          *)
+AtLexEnd(chart) ==
+    \E it \in chart[Len(chart)] : it[2] > 0 /\ LET prev == it[1][2][it[2]] IN prev[1] = "t" /\ prev[3] = 1
+IgnNow(chart, ign) ==
+    IF ign # {} /\ Len(chart) > 1 /\ AtLexEnd(chart) /\ NextBytes(chart) # {} THEN ign ELSE {}
+PushByteI(G, chart, b, ign) ==
+    IF b \in ign THEN (IF b \in IgnNow(chart, ign) THEN chart ELSE Append(chart, {})) ELSE PushByte(G, chart, b)
+RECURSIVE PushBytesI(_, _, _, _)
+PushBytesI(G, chart, w, ign) ==
+    IF w = <<>> \/ chart[Len(chart)] = {} THEN chart
+    ELSE PushBytesI(G, PushByteI(G, chart, Head(w), ign), Tail(w), ign)
 
 (* ---- declarative semantics (bounded word) ----------------------------- *)
 (* Full[A,i,j]: A derives w[i+1..j];  computed as a least fixpoint over triples *)
